@@ -206,6 +206,12 @@ def case_pipeline(ctx, inp):
         if fsig is None and si_computed and any(o[0] in ("head", "tail") for o in inp["ops"][si_computed[0] + 1:]):
             fsig = "set_index(computed divisions)+head|tail:optimizer-rewrites-to-NFirst/NLast"
         last = inp["ops"][-1][0] if inp["ops"] else inp["src"]["kind"]
+        # the order of rows with EQUAL index values inside a partition after a shuffle (set_index / index merge) is the
+        # shuffle's arrival order - not promised, and different between two graphs of the same expression
+        # (get_partition(i) vs to_delayed()[i]; seen with VERIF_SEED=7). A later positional step (iloc[::2], cumsum,
+        # head, tail) then legitimately picks different rows among the ties: compare the index only in that case.
+        shuf = [i for i, o in enumerate(inp["ops"]) if o[0] in ("set_index", "reset_set", "merge_index")]
+        ties_unordered = bool(shuf) and any(o[0] in ("map_partitions", "cumsum", "head", "tail") for o in inp["ops"][shuf[0] + 1:])
         try:
             divs = list(d.divisions)
             n = d.npartitions
@@ -248,7 +254,8 @@ def case_pipeline(ctx, inp):
                 except Exception as e:  # noqa: BLE001
                     ctx.fail("get_partition raised: " + U.exc_name(e), observed=[i, path])
                     continue
-                if list(got.index) != keys[i] or ("v" in got and sorted(got.v.fillna(-1)) != sorted(parts[i].v.fillna(-1))):
+                if list(got.index) != keys[i] or ("v" in got and not ties_unordered
+                                                  and sorted(got.v.fillna(-1)) != sorted(parts[i].v.fillna(-1))):
                     ctx.fail("get_partition(i) is not partition i of the graph", sig=fsig, observed=[i, list(got.index), keys[i], path])
                 if gd[0] is not None:
                     w2 = U.truthful(gd, [got])
@@ -293,7 +300,46 @@ def case_partitions_divs(ctx, inp):
     ctx.branch("partitions-" + ("increasing" if all(x < y for x, y in zip(sel, sel[1:])) else "unordered"))
 
 
-CASES = {"pipeline": case_pipeline, "locslice_divs": case_locslice_divs, "partitions_divs": case_partitions_divs}
+def case_concat_divs(ctx, inp):
+    """function + API level: Concat._divisions of two frames with known divisions (ordered ranges: d1[:-1] + d2, else
+    unknown) vs the model; the partitions really are the listed ones and truthful (concat_monotonic_truthful)"""
+    import dask
+    dd = U.dd()
+    d1, d2, k1, k2 = inp["d1"], inp["d2"], inp["k1"], inp["k2"]
+    f1 = U.frame_from_parts(k1, divisions=d1)
+    f2 = U.frame_from_parts(k2, divisions=d2)
+    model = ctx.lean(Sym("concat-divs"), d1, d2)
+    with dask.config.set(scheduler="sync"):
+        try:
+            c = dd.concat([f1, f2])
+            divs = list(c.divisions)
+            parts = U.partitions(c)
+        except ValueError as e:
+            # overlapping known divisions are rejected as documented (interleave_partitions=True is required)
+            ctx.eq("concat rejected only when the ranges overlap", model, [Sym("not-mono")])
+            ctx.branch("concat-overlap-rejected")
+            ctx.note(type(e).__name__)
+            return
+        except Exception as e:  # noqa: BLE001
+            ctx.fail("concat raised: " + U.exc_name(e), observed=U.exc_name(e))
+            return
+    if model[0] == "mono":
+        ctx.eq("Concat._divisions (ordered ranges)", model[1], [int(x) for x in divs])
+        ctx.branch("concat-monotonic")
+        why = U.truthful(divs, parts)
+        if why:
+            ctx.fail("concat of ordered frames: divisions not truthful: " + why, observed=[divs, [list(p.index) for p in parts]])
+        if [list(p.index) for p in parts] != [list(k) for k in k1 + k2]:
+            ctx.fail("concat of ordered frames: partitions are not the input partitions in order",
+                     observed=[list(p.index) for p in parts], expected=k1 + k2)
+    else:
+        ctx.branch("concat-not-monotonic")
+        if divs[0] is not None:
+            ctx.fail("concat of frames with overlapping ranges reports known divisions without interleaving", observed=divs)
+
+
+CASES = {"pipeline": case_pipeline, "locslice_divs": case_locslice_divs, "partitions_divs": case_partitions_divs,
+         "concat_divs": case_concat_divs}
 
 
 def _rand_op(rng, first):
@@ -369,6 +415,17 @@ def generate(ctx):
         n = len(divs) - 1
         sel = sorted(rng.sample(range(n), rng.randint(1, n)))
         yield "partitions_divs", {"divs": divs, "sel": sel}
+    for _ in range(ctx.n(40, 600)):
+        d1 = U.rand_divisions(rng, rng.randint(1, 4), 0, 12)
+        gap = rng.choice([-3, -1, 0, 0, 1, 1, 2, 5])
+        lo2 = max(0, d1[-1] + gap)
+        d2 = U.rand_divisions(rng, rng.randint(1, 3), lo2, lo2 + 12)
+        d2[0] = lo2 if d2[0] > lo2 and rng.random() < 0.7 else d2[0]
+        d2 = sorted(d2)
+        if len(set(d2[:-1])) != len(d2[:-1]):
+            continue
+        yield "concat_divs", {"d1": d1, "d2": d2, "k1": U.rand_truthful_parts(rng, d1, maxrows=3),
+                              "k2": U.rand_truthful_parts(rng, d2, maxrows=3)}
     for _ in range(ctx.n(200, 3300)):
         nops = rng.choice([0, 1, 1, 1, 2, 2, 3])
         src = _rand_source(rng)
